@@ -398,7 +398,7 @@ def _parts(thorough, seed):
     none = ["none", 0]
     cam = [
         # label, args(periods, dyns, delays, check_period, allow_stop, gaps, seed, first_delays), depth, split
-        ("cam_timing", ([20, 100, 250, 1000], D(none, ["s", 2], ["s", 0]), [0, 50, 99], None, True, [1200], seed), 8 if thorough else 5, 2),
+        ("cam_timing", ([20, 100, 250, 1000], D(none, ["s", 2], ["s", 0]), [0, 50, 99], None, True, [1200], seed), 7 if thorough else 5, 2),
         ("cam_thr_heading", ([100], D(none, *[["h", i] for i in range(5)]), [0], None, False, [], seed), 7 if thorough else 6, 2),
         ("cam_thr_speed", ([100], D(none, *[["s", i] for i in range(4)]), [0], None, False, [], seed), 7 if thorough else 6, 2),
         ("cam_thr_position", ([100], D(none, *[["p", i] for i in range(4)]), [0], None, False, [], seed), 7 if thorough else 6, 2),
